@@ -266,17 +266,30 @@ def rule_c(chk: Check, eng: Engine) -> None:
         raise AnalysisError("Repetition.fuzz: loop bound is not a local name")
     defs = [n for n in walk_local(fz.node) if isinstance(n, ast.Assign) and any(isinstance(t, ast.Name) and t.id == bound.id for t in n.targets)]
     ok_defs = True
+    def is_bounded_draw(v: ast.AST, depth: int = 0) -> bool:
+        if isinstance(v, ast.Call) and norm(v.func) == "random.randint" and len(v.args) == 2 and norm(v.args[0]) == "self.min" and norm(v.args[1]) == "self.max":
+            return True
+        if isinstance(v, ast.Name) and depth < 3:
+            ds = [n for n in walk_local(fz.node) if isinstance(n, ast.Assign) and any(isinstance(t, ast.Name) and t.id == v.id for t in n.targets)]
+            return bool(ds) and all(is_bounded_draw(x.value, depth + 1) for x in ds)
+        return False
+
     for d in defs:
         v = d.value
-        if isinstance(v, ast.Call) and norm(v.func) == "random.randint" and len(v.args) == 2 and norm(v.args[0]) == "self.min" and norm(v.args[1]) == "self.max":
+        if is_bounded_draw(v):
             chk.ok("R01-c", fz.fq, d.lineno, f"`{short(d)}`: count drawn within the declared bounds")
         elif all(nm.startswith("override_") or nm in ("self",) for nm in names_in(v)):
-            # only reachable when an override was passed
+            # only reachable when an override was passed: true branch of `override... is not None`, or else branch of `override... is None`
             from ..core import parents_map, enclosing
 
             pm = parents_map(fz.node)
             iff = enclosing(pm, d, (ast.If,))
-            if iff is not None and "override" in norm(iff.test) and "is not None" in norm(iff.test):
+            given = False
+            if iff is not None and isinstance(iff.test, ast.Compare) and len(iff.test.ops) == 1 and "override" in norm(iff.test.left) \
+                    and isinstance(iff.test.comparators[0], ast.Constant) and iff.test.comparators[0].value is None:
+                in_body = any(d is x for b in iff.body for x in ast.walk(b))
+                given = (isinstance(iff.test.ops[0], ast.IsNot) and in_body) or (isinstance(iff.test.ops[0], ast.Is) and not in_body)
+            if given:
                 chk.ok("R01-c", fz.fq, d.lineno, f"`{short(d)}`: only when the caller passed override parameters")
             else:
                 ok_defs = False
